@@ -214,7 +214,8 @@ class ProgBase(plumpy.Process):
                 # the step looks at its own identity (for a process constructed without a pid the pid is the uuid)
                 self._t('ident', repr(self.pid) == repr(self.uuid), self.pid is not None)
             elif kind == 'soon':
-                self.call_soon(_make_cb(self, fx[1], fx[2]))
+                cb = _make_cb(self, fx[1], fx[2])
+                cb.handle = self.call_soon(cb)  # (the callback knows its own handle: it may take itself off)
             elif kind == 'ctl':
                 try:
                     ret = getattr(self, fx[1])(*([fx[2]] if fx[1] != 'play' else []))
